@@ -91,6 +91,8 @@ pub enum Call {
     MpInsertMember(u8, bool),
     /// a call on the second member of the MultiProgress
     TickSecond,
+    /// format!("{:?}", bar) and, inside a MultiProgress, of the MultiProgress
+    DebugFmt,
     /// bars change hands between two MultiProgress objects: the shared bar is added to the other
     /// MultiProgress (true) / the other one's member is added to this one (false)
     MoveAcross(bool),
@@ -185,6 +187,12 @@ fn exec(c: Call, pb: &ProgressBar, mp: &Option<MultiProgress>, second: &Option<P
                 back.tick();
             }
         }
+        Call::DebugFmt => {
+            let _ = format!("{pb:?}");
+            if let Some(mp) = mp {
+                let _ = format!("{mp:?}");
+            }
+        }
         Call::TickSecond => {
             if let Some(second) = second {
                 second.tick();
@@ -198,6 +206,11 @@ fn exec(c: Call, pb: &ProgressBar, mp: &Option<MultiProgress>, second: &Option<P
             }
         }
     }
+}
+
+thread_local! {
+    static STOPPED_AFTER_FINISH: std::cell::Cell<usize> = const { std::cell::Cell::new(0) };
+    static EXECUTIONS: std::cell::Cell<usize> = const { std::cell::Cell::new(0) };
 }
 
 /// One execution of the program under the current shuttle schedule. Panics = failure.
@@ -263,6 +276,19 @@ fn body(p: &Prog) {
     let frames = spy.flushes.load(Ordering::SeqCst);
     shuttle::thread::yield_now();
     shuttle::thread::yield_now();
+    for _ in 0..6 {
+        if verif_sync::live_threads() == 0 {
+            break;
+        }
+        shuttle::thread::yield_now();
+    }
+    // a ticker that wakes up (its wait timed out) and finds the bar finished ends by itself, while handles
+    // are still alive; whether its wait times out is a generated choice, so this is counted over all
+    // executions of the program and required to happen at least once (see run_sched)
+    if verif_sync::live_threads() == 0 {
+        STOPPED_AFTER_FINISH.with(|c| c.set(c.get() + 1));
+    }
+    EXECUTIONS.with(|c| c.set(c.get() + 1));
     // last handle dropped: the ticker (interval of days) must stop, the drop must not hang
     drop(pb);
     drop(mp);
@@ -284,6 +310,8 @@ fn run_sched(c: &SchedCase) -> CaseResult {
     cfg.max_steps = shuttle::MaxSteps::FailAfter(200_000);
     let p2 = prog.clone();
     let iters = c.schedules.max(1) as usize;
+    STOPPED_AFTER_FINISH.with(|c| c.set(0));
+    EXECUTIONS.with(|c| c.set(0));
     let r = catch(move || match p2.pct_depth {
         Some(d) => {
             let runner = shuttle::Runner::new(PctScheduler::new_from_seed(c.seed, d.clamp(1, 5) as usize, iters), cfg);
@@ -308,6 +336,11 @@ fn run_sched(c: &SchedCase) -> CaseResult {
             v.label_if(c.prog.pct_depth.is_some(), "pct_scheduler");
             v.label_if(c.prog.timeout_budget > 0, "timeouts_may_fire");
             v.label_if(n > 1, "several_schedules");
+            let (stopped, execs) = (STOPPED_AFTER_FINISH.with(|c| c.get()), EXECUTIONS.with(|c| c.get()));
+            if std::env::var_os("VERIF_TRACE").is_some() {
+                eprintln!("TRACE budget {} stopped {stopped} of {execs}", c.prog.timeout_budget);
+            }
+            v.label_if(stopped > 0, "ticker_ended_by_itself_after_finish");
             Ok(v)
         }
         Err(msg) => {
@@ -458,6 +491,108 @@ fn run_manual(c: &ManualCase) -> CaseResult {
     }
 }
 
+// ------------------------------------------------------------------------------------------
+// a ticker that finds its bar finished ends by itself
+
+#[derive(Debug, Clone, Serialize, Deserialize)]
+pub struct EndCase {
+    /// 0 finish, 1 finish_and_clear, 2 abandon, 3 finish_using_style, 4 finish_with_message
+    how: u8,
+    in_multi: bool,
+    /// calls of a second thread while the first one finishes the bar
+    other: Vec<Call>,
+    seed: u64,
+    schedules: u32,
+}
+
+fn body_end(c: &EndCase) {
+    verif_sync::reset(3);
+    let spy = Spy::default();
+    let mut mp = None;
+    let pb = if c.in_multi {
+        let m = MultiProgress::with_draw_target(ProgressDrawTarget::term_like(Box::new(spy.clone())));
+        let pb = m.add(ProgressBar::with_draw_target(Some(10), ProgressDrawTarget::hidden()));
+        mp = Some(m);
+        pb
+    } else {
+        ProgressBar::with_draw_target(Some(10), ProgressDrawTarget::term_like(Box::new(spy.clone())))
+    };
+    pb.enable_steady_tick(interval(3));
+    let h = {
+        let (pb, mp, calls) = (pb.clone(), mp.clone(), c.other.clone());
+        shuttle::thread::spawn(move || {
+            for call in calls {
+                exec(call, &pb, &mp, &None, &None);
+            }
+        })
+    };
+    match c.how % 5 {
+        0 => pb.finish(),
+        1 => pb.finish_and_clear(),
+        2 => pb.abandon(),
+        3 => pb.finish_using_style(),
+        _ => pb.finish_with_message("done"),
+    }
+    h.join().expect("worker panicked");
+    for _ in 0..12 {
+        if verif_sync::live_threads() == 0 {
+            break;
+        }
+        shuttle::thread::yield_now();
+    }
+    if verif_sync::live_threads() == 0 {
+        STOPPED_AFTER_FINISH.with(|c| c.set(c.get() + 1));
+    }
+    EXECUTIONS.with(|c| c.set(c.get() + 1));
+    drop(pb);
+    drop(mp);
+    assert_eq!(verif_sync::live_threads(), 0, "LIFECYCLE: a steady-tick thread survived the last handle");
+}
+
+fn run_end(c: &EndCase) -> CaseResult {
+    let case = Arc::new(c.clone());
+    let mut cfg = shuttle::Config::new();
+    cfg.failure_persistence = shuttle::FailurePersistence::None;
+    cfg.max_steps = shuttle::MaxSteps::FailAfter(200_000);
+    let iters = c.schedules.max(50) as usize;
+    STOPPED_AFTER_FINISH.with(|c| c.set(0));
+    EXECUTIONS.with(|c| c.set(0));
+    let c2 = case.clone();
+    let r = catch(move || {
+        shuttle::Runner::new(RandomScheduler::new_from_seed(c2.seed, iters), cfg).run({
+            let c3 = c2.clone();
+            move || body_end(&c3)
+        })
+    });
+    match r {
+        Ok(_) => {
+            let (stopped, execs) = (STOPPED_AFTER_FINISH.with(|c| c.get()), EXECUTIONS.with(|c| c.get()));
+            if std::env::var_os("VERIF_TRACE").is_some() {
+                eprintln!("TRACE ends stopped {stopped} of {execs}");
+            }
+            // whether the ticker gets to look at the bar again while handles are alive (its wait timing out, or
+            // its first round coming after the finish) is a scheduling choice: over all uniformly random
+            // schedules of this program it happens in a large share of them on the unchanged tree - never is
+            // not an accident
+            if stopped == 0 {
+                return Err(Fail::new(
+                    "ticker_lifecycle",
+                    format!("{c:?}: in none of {execs} random schedules did the steady-tick thread end while a handle of the finished bar was alive (it only ended when the last handle was dropped)"),
+                ));
+            }
+            let mut v = Verdict::default();
+            v.nontrivial = true;
+            v.label("ticker_ended_by_itself_after_finish");
+            v.label_if(c.in_multi, "inside_multi_progress");
+            Ok(v)
+        }
+        Err(msg) => {
+            let kind = if msg.contains("deadlock") { "deadlock" } else if msg.contains("LIFECYCLE") { "ticker_lifecycle" } else { "panic" };
+            Err(Fail::new(kind, format!("{c:?}: {msg}")))
+        }
+    }
+}
+
 fn call_strategy() -> BoxedStrategy<Call> {
     prop_oneof![
         4 => Just(Call::Update),
@@ -487,6 +622,7 @@ fn call_strategy() -> BoxedStrategy<Call> {
         1 => Just(Call::DisableTickViaWeak),
         2 => (0u8..3, any::<bool>()).prop_map(|(w, a)| Call::MpInsertMember(w, a)),
         1 => Just(Call::TickSecond),
+        1 => Just(Call::DebugFmt),
         2 => any::<bool>().prop_map(Call::MoveAcross),
     ]
     .boxed()
@@ -545,7 +681,7 @@ pub fn property() -> Property {
         ],
         parts: vec![Box::new(Gen::<SchedCase> {
             name: "schedules",
-            rule: "proptest generates the program (1-2 worker threads of 1-5 calls plus 0-5 calls on the main thread, on clones of one ProgressBar, optionally a member of a MultiProgress, ticker initially on or off, calls from update/enable_steady_tick(1 ms..10 days)/disable_steady_tick/tick/inc/set_message/set_length/finish/finish_and_clear/println/suspend/reset/clone+drop/getters/mp.println/mp.suspend/mp.remove/mp.add/mp.clear/mp.insert_before and insert_after with a new bar or with bars that are members already, in both directions and with a bar as its own anchor, bars handed from one MultiProgress to another and back from different threads); shuttle generates 150 (thorough 3000) random or PCT(depth 1-3) schedules per program incl. bounded time-out choices; every execution ends with the lifecycle assertions (ticker thread count 0 after disable and after the last drop, <= 1 after replace, no frame after finish() returned); non-trivial = >= 2 threads touch the handle and a ticker op, update() or an installed ticker is involved; evaluations counts programs, each explored under that many schedules",
+            rule: "proptest generates the program (1-2 worker threads of 1-5 calls plus 0-5 calls on the main thread, on clones of one ProgressBar, optionally a member of a MultiProgress, ticker initially on or off, calls from update/enable_steady_tick(1 ms..10 days)/disable_steady_tick/tick/inc/set_message/set_length/finish/finish_and_clear/println/suspend/reset/clone+drop/getters/Debug formatting/mp.println/mp.suspend/mp.remove/mp.add/mp.clear/mp.insert_before and insert_after with a new bar or with bars that are members already, in both directions and with a bar as its own anchor, bars handed from one MultiProgress to another and back from different threads); shuttle generates 150 (thorough 3000) random or PCT(depth 1-3) schedules per program incl. bounded time-out choices; every execution ends with the lifecycle assertions (ticker thread count 0 after disable and after the last drop, <= 1 after replace, no frame after finish() returned); non-trivial = >= 2 threads touch the handle and a ticker op, update() or an installed ticker is involved; evaluations counts programs, each explored under that many schedules",
             strategy: sched_strategy,
             cases: |t| t.pick(150, 3000),
             run: run_sched,
@@ -567,6 +703,23 @@ pub fn property() -> Property {
             run: run_manual,
             signature: no_signature,
             essential: &["manual_calls_race_with_ticker_replacement", "with_update_thread", "inside_multi_progress", "pct_scheduler"],
+            workers: default_workers(),
+            decode: None,
+        }),
+        Box::new(Gen::<EndCase> {
+            name: "ticker_ends",
+            rule: "a bar with a steady ticker (interval 10 days) is finished in one of five ways while a second thread issues 0-3 calls that do not touch the ticker (tick/inc/set_message/println/getters); 200 (thorough 2000) uniformly random schedules per program, time-outs may fire three times: in at least one of them the steady-tick thread has ended while handles of the finished bar are still alive (it finds the bar finished when it next looks), and in all of them it is gone once the last handle is dropped",
+            strategy: |t| {
+                let schedules = t.pick(200u32, 2000);
+                let call = prop_oneof![Just(Call::Tick), Just(Call::Inc), Just(Call::SetMessage), Just(Call::Println), Just(Call::Position), Just(Call::IsFinished)];
+                (0u8..5, any::<bool>(), proptest::collection::vec(call, 0..4), any::<u64>())
+                    .prop_map(move |(how, in_multi, other, seed)| EndCase { how, in_multi, other, seed, schedules })
+                    .boxed()
+            },
+            cases: |t| t.pick(20, 300),
+            run: run_end,
+            signature: no_signature,
+            essential: &["ticker_ended_by_itself_after_finish", "inside_multi_progress"],
             workers: default_workers(),
             decode: None,
         })],
